@@ -524,7 +524,7 @@ def gen_cases(tier, seed):
     cases = []
     quick = tier == "quick"
     # ---- one-electron matrices ----
-    n_one = 900 if quick else 9000
+    n_one = 900 if quick else 12000
     for i in range(n_one):
         n = 1 + i % 5
         basis, geom, dep = gen_basis17(rng, n, 0.05, 50.0)
@@ -547,7 +547,7 @@ def gen_cases(tier, seed):
                 cases.append({"kind": "one", "basis": [s.to_json() for s in basis], "pts": pts, "geom": geom2,
                               "dep": dep2, "cmp": True})
     # ---- repulsion array ----
-    n_eri = 260 if quick else 1600
+    n_eri = 260 if quick else 2400
     for i in range(n_eri):
         n = 1 + i % 4 if quick else 1 + i % 5
         r = rng.random()
@@ -579,7 +579,24 @@ def _in_c04_range(basis):
 # ----------------------------------------------------------------------------------------------
 # shrinking
 # ----------------------------------------------------------------------------------------------
+def _valid(case):
+    """stay inside the property's quantifier while shrinking: every segmented contraction has a non-zero
+    coefficient (an identically zero function cannot be normalised)"""
+    for sj in case["basis"]:
+        ncol = len(sj["coeffs"][0])
+        for m in range(ncol):
+            if all(Fraction(row[m]) == 0 for row in sj["coeffs"]):
+                return False
+    return len(case["basis"]) >= 1
+
+
 def shrink_case(case):
+    for c in _shrink_candidates(case):
+        if _valid(c):
+            yield c
+
+
+def _shrink_candidates(case):
     lst = case["basis"]
     if case["kind"] == "one" and len(case.get("pts", [])) > 1:
         for i in range(len(case["pts"])):
